@@ -70,6 +70,14 @@ def solver_value_reads(prog: Program, rep, RID: str, classes: List[str]) -> int:
     return n
 
 
+def loop_or_param_names(fn) -> set:
+    out = {a.arg for a in fn.args.args + fn.args.kwonlyargs}
+    for lp in ast.walk(fn):
+        if isinstance(lp, (ast.For, ast.comprehension)):
+            out |= {n.id for n in ast.walk(lp.target) if isinstance(n, ast.Name)}
+    return out
+
+
 def data_rhs_converted(prog: Program, rep, RID: str, sites: Dict[str, List[str]]) -> int:
     """sites: class -> methods whose equality rows have caller data on one side"""
     from rules.common import all_local_defs
@@ -101,7 +109,7 @@ def data_rhs_converted(prog: Program, rep, RID: str, sites: Dict[str, List[str]]
                 key = f"{cname}.{mname}:{norm(data_side[0])[:40]}"
                 if isinstance(d, ast.Call) and dotted(d.func) in ("float", "int"):
                     rep.ok(RID, key, f"the datum of `... == {norm(data_side[0])}` is converted: `{norm(d)[:60]}`", f.loc(c))
-                elif isinstance(d, (ast.Subscript, ast.Attribute)):
+                elif isinstance(d, (ast.Subscript, ast.Attribute)) or (isinstance(d, ast.Name) and d.id in loop_or_param_names(f.node)):
                     rep.violation(RID, key, f"the row `... == {norm(data_side[0])}` hands the caller's value `{norm(d)[:60]}` to the solver's == unconverted: a numpy integer or "
                                   "float32 scalar (flows read with numpy / pandas) raises a bare Exception('Unknown comparison.') from the constructor, although the "
                                   "error models accept the same input", f.loc(c))
@@ -160,4 +168,117 @@ def float_sum_exact_compare(prog: Program, rep, RID: str, cname: str, mname: str
             rep.violation(RID, f"{cname}.{mname}:sum-compare", f"`{norm(c)[:80]}` uses a tolerance above 1e-6 (or the default relative one only)", f.loc(c))
     if n == 0:
         raise AnalysisError(f"{cname}.{mname}: no comparison of a sum with the total found")
+    return n
+
+
+def coefficients_converted(prog: Program, rep, RID: str, classes: List[str]) -> int:
+    """Caller data used as a *coefficient* of a solver variable (error scaling factor of an edge, length of an edge) is converted with
+    float(): the solver multiplies by Python numbers only, a numpy integer / float32 scalar raises a bare Exception."""
+    n = 0
+    DATA = ("edge_error_scaling", "length_attr")
+
+    def is_data(e: ast.AST) -> bool:
+        return isinstance(e, ast.Call) and isinstance(e.func, ast.Attribute) and e.func.attr == "get" and any(d in norm(e) for d in DATA)
+
+    def is_var(e: ast.AST) -> bool:
+        t = norm(e)
+        return "_vars[" in t or "quicksum" in t
+    for cname in classes:
+        cls = prog.cls(cname)
+        for m in cls.methods.values():
+            # names bound to a raw / converted datum inside this method
+            raw_names, conv_names = set(), set()
+            for st in ast.walk(m.node):
+                if isinstance(st, ast.Assign) and len(st.targets) == 1 and isinstance(st.targets[0], ast.Name):
+                    if is_data(st.value):
+                        raw_names.add(st.targets[0].id)
+                    elif isinstance(st.value, ast.Call) and dotted(st.value.func) == "float" and st.value.args and is_data(st.value.args[0]):
+                        conv_names.add(st.targets[0].id)
+            for node in ast.walk(m.node):
+                if not (isinstance(node, ast.BinOp) and isinstance(node.op, ast.Mult)):
+                    continue
+                for a, b in ((node.left, node.right), (node.right, node.left)):
+                    if not is_var(b):
+                        continue
+                    raw = is_data(a) or (isinstance(a, ast.Name) and a.id in raw_names)
+                    conv = (isinstance(a, ast.Call) and dotted(a.func) == "float" and a.args and is_data(a.args[0])) or (isinstance(a, ast.Name) and a.id in conv_names)
+                    if raw:
+                        n += 1
+                        rep.violation(RID, f"{cname}.{m.name}:coefficient[{norm(a)[:40]}]", f"`{norm(node)[:90]}` multiplies a solver expression by the caller's value unconverted: a numpy "
+                                      "integer / float32 scaling factor or edge length raises Exception('Unexpected parameters.') from the constructor", m.loc(node))
+                    elif conv:
+                        n += 1
+                        rep.ok(RID, f"{cname}.{m.name}:coefficient[{norm(a)[:40]}]", "the caller's value is converted with float() before it multiplies a solver expression", m.loc(node))
+    if n == 0:
+        raise AnalysisError(f"no product of a solver expression with caller data found in {classes}")
+    return n
+
+
+def no_recursion(prog: Program, rep, RID: str, modules: List[str]) -> int:
+    """The traversals of the safety machinery run over paths / dominator trees as long as the graph: a function that calls itself uses one
+    Python frame per node and raises RecursionError from about 1000 nodes on (the cyclic models compute safe sequences by default)."""
+    n = 0
+    for f in prog.all_functions():
+        if f.module.name not in modules:
+            continue
+        for fd in [x for x in ast.walk(f.node) if isinstance(x, ast.FunctionDef)]:
+            n += 1
+            calls_self = [c for c in ast.walk(fd) if isinstance(c, ast.Call) and ((isinstance(c.func, ast.Name) and c.func.id == fd.name) or
+                                                                                 (isinstance(c.func, ast.Attribute) and c.func.attr == fd.name and norm(c.func.value) == "self"))]
+            # a call to an inner function of the same name is not recursion; a call inside a *nested* def of another name still is
+            if calls_self:
+                rep.violation(RID, f"{f.qualname}:{fd.name}:recursion", f"`{fd.name}` calls itself (line {calls_self[0].lineno}): its depth is the length of a path / the height of the "
+                              "dominator tree of the input graph, so a source-to-sink path of about 1000 nodes raises RecursionError in every cyclic model with default options",
+                              f.loc(calls_self[0]), self_contained=True)
+    if n == 0:
+        raise AnalysisError(f"no function found in {modules}")
+    rep.ok(RID, "traversals-iterative", f"none of the {n} functions of {', '.join(modules)} calls itself", "")
+    return n
+
+
+def candidate_weights_exclude_ignored(prog: Program, rep, RID: str, cname: str) -> int:
+    """The guessed-weights model takes the flow values as candidate path weights; an ignored edge can carry any value (negative, NaN, a value
+    no path has to explain), so only the values of non-ignored edges are candidates."""
+    from rules.search import comprehension_excludes_ignored
+    f = prog.own_method(cname, "_solve_with_given_weights")
+    comps = [n for n in ast.walk(f.node) if isinstance(n, (ast.SetComp, ast.ListComp, ast.GeneratorExp)) and "self.flow_attr" in norm(n.elt) and
+             any("self.G.edges" in norm(g.iter) for g in n.generators)]
+    if not comps:
+        raise AnalysisError(f"{cname}._solve_with_given_weights: the collection of the candidate weights from the flow values was not found")
+    for c in comps:
+        key = f"{cname}._solve_with_given_weights:candidates"
+        if comprehension_excludes_ignored(c):
+            rep.ok(RID, key, "candidate weights are the flow values of non-ignored edges", f.loc(c))
+        else:
+            rep.violation(RID, key, f"`{norm(c)[:100]}` takes the value of every edge carrying the attribute, ignored ones included: an ignored edge with the value -1 "
+                          "gives a path of weight -1 (and a decomposition with fewer paths than the minimum), a NaN raises 'cannot convert float NaN to integer' from solve()",
+                          f.loc(c))
+    return len(comps)
+
+
+def subgraph_windows_guarded(prog: Program, rep, RID: str) -> int:
+    """The subgraph-scanning bound builds a MinFlowDecomp per window; a window without an edge to explain (no edge, or only ignored / unvalued
+    ones) is outside the model's domain (its constructor raises, log2(0)), so such windows are skipped before the sub-model is built."""
+    f = prog.own_method("MinFlowDecomp", "_get_lowerbound_with_subgraph_scanning")
+    loops = [lp for lp in ast.walk(f.node) if isinstance(lp, (ast.While, ast.For))]
+    n = 0
+    for lp in loops:
+        for c in calls_in(lp):
+            if dotted(c.func) not in ("MinFlowDecomp", "mfd.MinFlowDecomp"):
+                continue
+            n += 1
+            key = "MinFlowDecomp._get_lowerbound_with_subgraph_scanning:window-has-work"
+            guards = [i for i in ast.walk(lp) if isinstance(i, ast.If) and i.lineno < c.lineno and "flow_attr" in norm(i.test) and "subgraph" in norm(i.test) and
+                      (any(isinstance(x, (ast.Continue, ast.Break)) for x in ast.walk(i)) or any(x is c for x in ast.walk(i)))]
+            protected = any(isinstance(t, ast.Try) and any(x is c for b in t.body for x in ast.walk(b)) for t in ast.walk(lp))
+            if guards:
+                rep.ok(RID, key, f"windows without a valued, non-ignored edge are skipped (`{norm(guards[0].test)[:80]}`)", f.loc(guards[0]))
+            elif protected:
+                rep.ok(RID, key, "the sub-model is built inside a try block", f.loc(c))
+            else:
+                rep.violation(RID, key, "a MinFlowDecomp is built for every window of the scan: on a window whose edges are all ignored or unvalued the sub-model raises "
+                              "'math domain error' (log2(0)), on a window without edges its constructor raises ValueError - both escape from solve() of a well-formed instance",
+                              f.loc(c))
+    if n == 0:
+        raise AnalysisError("subgraph scanning: construction of the per-window MinFlowDecomp not found")
     return n
